@@ -1,6 +1,6 @@
 (* Prop_C03 — operator algebra agrees with matrix algebra; advertised shapes; rejection. *)
 From Coq Require Import ZArith List Bool.
-From SV Require Import lib.Scalar lib.BigSum model.Block model.Linop proofs.LinopTheory proofs.LinopAlgebra.
+From SV Require Import lib.Scalar lib.BigSum model.Block model.Linop proofs.LinopTheory proofs.LinopAlgebra proofs.LinopStack.
 Import ListNotations.
 Local Open Scope Z_scope.
 
@@ -51,6 +51,41 @@ Theorem C03_add_rejects_misfit :
     (ishape_of A <> ishape_of B \/ oshape_of A <> oshape_of B) -> wf (Add [A; B]) = false.
 Proof. exact add_reject. Qed.
 Print Assumptions C03_add_rejects_misfit.
+
+
+(* ---- Hstack / Vstack / Diag ARE the block-row / block-column / block-diagonal matrices, split points = prefix sums
+        of the members' sizes along the axis (or of their flattened sizes when axis is None) ---- *)
+Theorem C03_hstack_is_block_row :
+  forall (R : StarRing) arr scal orc ls axis, wf (Hstack ls axis) = true ->
+    forall (x : list Z -> R) o, D R arr scal orc (Hstack ls axis) x o =
+      sum_parts R ls (psums 0 (map (axsize axis) (map ishape_of ls)))
+        (fun a st => D R arr scal orc a (fun i => x (emb axis (ishape_of a) st i)) o).
+Proof. exact hstack_is_block_row. Qed.
+Print Assumptions C03_hstack_is_block_row.
+
+Theorem C03_vstack_is_block_column :
+  forall (R : StarRing) arr scal orc ls axis, wf (Vstack ls axis) = true ->
+    forall a st, In (a, st) (combine ls (starts axis (map oshape_of ls))) ->
+    forall (x : list Z -> R) j, inbox (oshape_of a) j ->
+      D R arr scal orc (Vstack ls axis) x (emb axis (oshape_of a) st j) = D R arr scal orc a x j.
+Proof. exact vstack_is_block_column. Qed.
+Print Assumptions C03_vstack_is_block_column.
+
+Theorem C03_diag_is_block_diagonal :
+  forall (R : StarRing) arr scal orc ls oaxis iaxis, wf (Diag ls oaxis iaxis) = true ->
+    forall a ist ost, In (a, ist, ost) (combine (combine ls (starts iaxis (map ishape_of ls))) (starts oaxis (map oshape_of ls))) ->
+    forall (x : list Z -> R) j, inbox (oshape_of a) j ->
+      D R arr scal orc (Diag ls oaxis iaxis) x (emb oaxis (oshape_of a) ost j) =
+      D R arr scal orc a (fun i => x (emb iaxis (ishape_of a) ist i)) j.
+Proof. exact diag_is_block_diagonal. Qed.
+Print Assumptions C03_diag_is_block_diagonal.
+
+Theorem C03_split_points_are_prefix_sums :
+  forall shs axis S ind, stack_params shs axis = Ok (S, ind) ->
+    0 :: ind = psums 0 (map (axsize axis) shs) /\
+    getZ S (match axis with None => 0 | Some ax => ax mod lenZ S end) = sumlist (map (axsize axis) shs).
+Proof. exact stack_params_prefix_sums. Qed.
+Print Assumptions C03_split_points_are_prefix_sums.
 
 Example C03_example_reject :
   wf (Compose [Resize [3] [4] None None; Resize [5] [3] None None]) = false /\
